@@ -24,6 +24,7 @@ THEOREMS = [
     "Gozod.C06.c06_rules_perm", "Gozod.C06.c06_accept_perm", "Gozod.C06.c06_tag_meaning_partial", "Gozod.C06.c06_tag_meaning_full_false",
     # the static table of type switches (Proofs/C06S.lean over Gen/TagSwitches.lean)
     "Gozod.C06.c06_switches_reach_partial", "Gozod.C06.c06_switches_cover", "Gozod.C06.c06_unreached_is_dropped",
+    "Gozod.C06.c06_tableX_shape",
 ]
 # witnesses that the known-finding region is exact; they stop checking when the library is repaired
 W_MODULES = ["Gozod.Proofs.C06W"]
@@ -62,6 +63,21 @@ INSTANCES = {
 }
 EXTRA_SINGLES = {"str": ["min=37"]}
 EXTRA_PAIRS = {"str": [("min=37", "uuid")]}   # a valid UUID has 36 bytes: only min>36 can expose a dropped min
+
+# NON-PROPERTY cells: rule names types/struct.go implements but docs/tags.md does not list in its rule tables.  They get
+# their own struct types (X<k>: a tag that makes FromStruct panic must not poison the documented block) and their own
+# table Gen/TagTableX.lean — the verdicts FromStruct gives, with no documented-meaning oracle and no C06 theorem; C13
+# (gozodgen vs FromStruct) reads it.
+EXTRA_RULES = {
+    "str": ["includes=aaa", "startswith=aa", "endswith=aa", "nilable", "coerce", "default=dflt", "prefault=dflt",
+            "enum=aaaaaaaaaaaaaaaaaaaa zzzzzzzzzzzzzzzzzzzzz", "literal=aaaaaaaaaaaaaaaaaaaa", "ipv4", "iso_date", "jwt"],
+    "sint": ["finite", "multipleof=2", "nilable", "coerce", "default=4", "prefault=4", "enum=2 4", "literal=4"],
+    "uint": ["finite", "multipleof=2", "nilable", "coerce", "default=4", "prefault=4", "enum=2 4", "literal=4"],
+    "float": ["finite", "multipleof=2", "nilable", "coerce", "default=4", "prefault=4", "enum=2 4", "literal=4"],
+    "bool": ["nilable", "coerce", "default=true", "literal=true"],
+    "slice": ["nilable"],
+    "map": ["nilable", "min=1", "max=1", "nonempty"],
+}
 
 def documented_rules(repo):
     """Rule names per class from the tables of docs/tags.md. Returns (dict, error)."""
@@ -168,7 +184,8 @@ def build_matrix(repo):
             pairs += EXTRA_PAIRS.get(cls, [])
             inst = inst + EXTRA_SINGLES.get(cls, []) + extra_singles(tok, cls)
             blocks.append(dict(fty=("ptr_" if ptr else "") + tok, gotype=("*" if ptr else "") + gotype, cls=cls, ptr=ptr,
-                               probes=probes_for(cls, ptr) + extra_probes(tok, cls), singles=inst, pairs=pairs))
+                               probes=probes_for(cls, ptr) + extra_probes(tok, cls), singles=inst, pairs=pairs,
+                               extras=EXTRA_RULES.get(cls, [])))
     return blocks, ""
 
 def go_matrix(blocks):
@@ -188,10 +205,16 @@ def go_matrix(blocks):
         singles = [field([r]) for r in b["singles"]]
         pairs = ["{%s, %s}" % (field([a, c]), field([c, a])) for a, c in b["pairs"]]
         L.append("}"); L.append("")
-        reg.append("\t{Fty: %s, GoType: %s, Struct: %d, Probes: []string{%s},\n\t\tSingles: []cellDef{%s},\n\t\tPairs: [][2]cellDef{%s}}," % (
-            q(b["fty"]), q(b["gotype"]), k, ", ".join(q(p) for p in b["probes"]), ", ".join(singles), ", ".join(pairs)))
+        L.append("type X%d struct {" % k)
+        L.append("\tF0 %s `gozod:\"required\"`" % b["gotype"])       # keeps the struct tagged when there are no extras
+        n = 1
+        extras = [field([r]) for r in b.get("extras", [])]
+        L.append("}"); L.append("")
+        reg.append("\t{Fty: %s, GoType: %s, Struct: %d, Probes: []string{%s},\n\t\tSingles: []cellDef{%s},\n\t\tPairs: [][2]cellDef{%s},\n\t\tExtras: []cellDef{%s}}," % (
+            q(b["fty"]), q(b["gotype"]), k, ", ".join(q(p) for p in b["probes"]), ", ".join(singles), ", ".join(pairs), ", ".join(extras)))
     reg.append("}"); reg.append("")
     reg.append("var runners = []func() runner{%s}" % ", ".join("mk[M%d]" % k for k in range(len(blocks))))
+    reg.append("var xrunners = []func() runner{%s}" % ", ".join("mk[X%d]" % k for k in range(len(blocks))))
     return "\n".join(L + reg) + "\n"
 
 def write_if_changed(path, content):
@@ -462,6 +485,12 @@ def lean_table(blocks, obs):
 
 SW_RULES = ["min", "max", "length", "email", "url", "uuid", "regex", "positive", "negative", "nonnegative",
             "nonpositive", "nonempty", "gt", "gte", "lt", "lte"]
+# rule names the code implements but docs/tags.md does not list in its rule tables: a second, NON-PROPERTY table
+# (`Gen.tagFactsX`, same shape) — C06's statement speaks of documented rules only; C13 compares gozodgen with
+# FromStruct on these and can read which (rule, field type) cells the reflection path reaches at all.
+SW_RULES_X = ["enum", "literal", "default", "prefault", "nilable", "finite", "coerce", "multipleof", "includes", "startswith",
+              "endswith", "ipv4", "ipv6", "cidrv4", "cidrv6", "cuid", "cuid2", "jwt", "iso_datetime", "iso_date", "iso_time",
+              "iso_duration", "time"]
 GO_KIND = {"string": "String", "int": "Int", "int8": "Int8", "int16": "Int16", "int32": "Int32", "int64": "Int64",
            "uint": "Uint", "uint8": "Uint8", "uint16": "Uint16", "uint32": "Uint32", "uint64": "Uint64",
            "float32": "Float32", "float64": "Float64", "bool": "Bool"}
@@ -474,7 +503,7 @@ def switch_facts(repo):
         os.makedirs(os.path.dirname(binp), exist_ok=True)
         rc, out = C.run(["go", "build", "-o", binp, "./cmd/c06sw"], cwd=C.HARNESS, env=C.goenv(), timeout=900)
     if rc != 0: return None, "c06sw does not build: " + out[-800:]
-    rc, out = C.run([binp, "-repo", repo, "-rules", ",".join(SW_RULES)])
+    rc, out = C.run([binp, "-repo", repo, "-rules", ",".join(SW_RULES + SW_RULES_X)])
     if rc != 0: return None, "c06sw failed (the tag-application functions of types/struct.go were not found): " + out[-800:]
     try:
         return json.loads(out), ""
@@ -558,6 +587,15 @@ def lean_switches(facts, blocks):
                     continue       # a case that is neither an instantiation nor a dispatch interface (e.g. `nil`)
                 cs.append("⟨%d, %s⟩" % (intern(h), "none" if a is None else "some %d" % intern(a)))
             rows.append("    ⟨.%s, %d, %d, [%s]⟩" % (r, intern(tl["func"]), tl["line"], ", ".join(cs)))
+    rowsx = []
+    for r in SW_RULES_X:
+        for tl in facts["rules"].get(r, []):
+            cs = []
+            for t in tl["types"]:
+                h, a = _split_ty(t)
+                if a is None and h not in facts["ifaces"]: continue
+                cs.append("⟨%d, %s⟩" % (intern(h), "none" if a is None else "some %d" % intern(a)))
+            rowsx.append("    ⟨%s, %d, %d, [%s]⟩" % (json.dumps(r), intern(tl["func"]), tl["line"], ", ".join(cs)))
     L = ["-- REGENERATED on every `./check C06` run by vlib/c06.py from harness/cmd/c06sw (go/ast over types/*.go). DO NOT EDIT.",
          "import Gozod.Model.TagSwitch", "namespace Gozod.Gen", "open Gozod.Tags Gozod.Tags.Sw", "",
          "def tagFacts : Facts where",
@@ -565,6 +603,10 @@ def lean_switches(facts, blocks):
          "  schemaTy := [", ",\n".join(sty), "  ]",
          "  rows := [", ",\n".join(rows), "  ]",
          "  ifaces := [", ",\n".join(ifaces), "  ]",
+         "",
+         "/-- NON-PROPERTY table: the rule names types/struct.go implements but docs/tags.md does not list; same indices into",
+         "    `tagFacts.names`; `(rule name, function, line, cases)`.  Read by C13 (gozodgen vs FromStruct); no C06 theorem. -/",
+         "def tagSwitchesX : List (String × Nat × Nat × List CaseTy) := [", ",\n".join(rowsx), "  ]",
          "", "end Gozod.Gen"]
     return "\n".join(L) + "\n", ""
 
@@ -592,6 +634,34 @@ def static_unreached(facts, blocks):
                 where = ", ".join(sorted({"%s:%d" % (tl["func"], tl["line"]) for tl in facts["rules"].get(name, [])})) or "no switch handles this rule name"
                 out.append("%s on %s: no case for *%s[%s] (%s)" % (name, b["gotype"], h, a, where))
     return out
+
+GEN_LEAN_X = os.path.join(C.LEAN, "Gozod", "Gen", "TagTableX.lean")
+
+def lean_table_x(blocks, ops, impl):
+    obs = {}
+    for o, i in zip(ops, impl):
+        t = C.op_body(o).split(" ")
+        if len(t) >= 5 and t[1] == "xcell": obs[(t[2], t[3], t[4])] = i
+    L = ["-- REGENERATED on every `./check C06` run by vlib/c06.py from the behaviour of gozod.FromStruct. DO NOT EDIT.",
+         "-- NON-PROPERTY table: rule names the code implements but docs/tags.md does not list in its rule tables",
+         "-- (C06's statement speaks of documented rules only).  (field type, probes, [(tag, verdict per probe)]);",
+         "-- verdict 1 = the field raised no issue, 0 = it did, 2 = FromStruct / Parse panicked or failed otherwise.",
+         "-- No oracle, no C06 theorem: read by C13, which compares gozodgen with FromStruct on these rules.",
+         "import Gozod.Model.Tags", "namespace Gozod.Gen", "open Gozod.Tags", "",
+         "def tagTableX : List (FTy × List Probe × List (String × List Nat)) := ["]
+    rows = []
+    for b in blocks:
+        if not b.get("extras"): continue
+        base = b["fty"][4:] if b["ptr"] else b["fty"]
+        cells = []
+        for r in b["extras"]:
+            tok = r.replace(" ", "~")
+            vs = [{"1": "1", "0": "0"}.get(obs.get((b["fty"], tok, p), "?"), "2") for p in b["probes"]]
+            cells.append("(%s, [%s])" % (json.dumps(r), ", ".join(vs)))
+        rows.append("  (⟨%s, .%s⟩, [%s],\n    [%s])" % ("true" if b["ptr"] else "false", base,
+                    ", ".join(lean_probe(p) for p in b["probes"]), ",\n     ".join(cells)))
+    L.append(",\n".join(rows)); L.append("]"); L.append(""); L.append("end Gozod.Gen")
+    return "\n".join(L) + "\n"
 
 GEN_GO = os.path.join(C.HARNESS, "cmd", "c06", "zz_matrix.go")
 GEN_LEAN = os.path.join(C.LEAN, "Gozod", "Gen", "TagTable.lean")
@@ -728,6 +798,7 @@ def _run(res):
         C.tie_broken(res, "translator C06/TagGraph", "cannot render Gen/TagGraph.lean from the harness output: %r" % (e,))
         return res.finish()
     if write_if_changed(GEN_LEAN_GRAPH, gtxt): res.notes.append("Gen/TagGraph.lean changed and was rewritten")
+    if write_if_changed(GEN_LEAN_X, lean_table_x(blocks, ops, impl)): res.notes.append("Gen/TagTableX.lean (non-property) changed and was rewritten")
     # the static table: case lists of the type switches of types/struct.go (go/ast), regenerated
     facts, err = switch_facts(C.REPO)
     if facts is None:
@@ -765,6 +836,8 @@ def _run(res):
             model[i] = m + "\t" + (impl[i] if good else m)
         elif o.startswith("c06 tablesum") or o.startswith("c06 genv"):
             model[i] = model[i].split("\t")[0] + "\t" + impl[i]      # a difference is drift of the regenerated table
+        elif o.startswith("c06 xcell"):
+            model[i] = impl[i] + "\t" + impl[i]      # non-property cells: recorded into Gen/TagTableX.lean, never judged
         elif o.startswith("c06 stype"):
             m = model[i].split("\t")[0]
             # field types no rule switch applies to (bool, maps, nested structs) are not in the static table
